@@ -50,6 +50,7 @@ register("cache_mon", flavors=("asan",))
 register("cache_conc", flavors=("tsan", "asan"))
 register("netcache_mon", flavors=("asan", "tsan"))
 register("sess_mon", flavors=("asan", "plain"))
+register("sess_hist", flavors=("asan",))
 register("fstore_mon", flavors=("asan", "plain"))
 register("aio_mon", flavors=("tsan", "asan"))
 register("route_mon", flavors=("asan",))
